@@ -576,11 +576,11 @@ def run_shard(spec):
 
 
 def plan(tier, seed, scale):
-    n = int((64 if tier == "quick" else 900) * scale)
-    return base.plan_scripts(PROP, tier, seed, 1.0, quick=n, thorough=n, extra={"nsched": 6 if tier == "quick" else 40, "systematic": 6 if tier == "quick" else 120})
+    n = int((64 if tier == "quick" else 640) * scale)
+    return base.plan_scripts(PROP, tier, seed, 1.0, quick=n, thorough=n, extra={"nsched": 6 if tier == "quick" else 30, "systematic": 6 if tier == "quick" else 80})
 
 
-SHARD_TIMEOUT = {"quick": 1200, "thorough": 3400}
+SHARD_TIMEOUT = {"quick": 1200, "thorough": 7000}
 
 
 def replay_specs(rp):
